@@ -27,6 +27,7 @@ var hostile = []string{
 	"..", "..", ".", "", "../x", "../outside.txt", "../export-evil", "../export-evil/secret.txt", "/etc/passwd", "/tmp/x",
 	"a/../../x", "a/../../outside.txt", "..\\x", "\\", "a\x00b", "\x00", "....", "../", "..//", "./../outside.txt", "d/../../../outside.txt",
 	"../../outside.txt", "../../../outside.txt", "../export", "../export/f", "export-evil", strings.Repeat("n", 300), strings.Repeat("../", 40) + "etc/passwd",
+	".\xff.", "\xff..", ".\xff.\xff", "..\xff", "\xc0.\xc0.", // names that become ".." once invalid UTF-8 is dropped
 }
 var ordinary = []string{"a", "d", "x", "y", "f", "e", "new", "n2", "k"}
 
@@ -73,6 +74,10 @@ func genConfOp(t *rapid.T) Op {
 		op.Mode = rapid.SampledFrom([]uint8{0, 1, 2, 0x12}).Draw(t, "mode")
 		if rapid.IntRange(0, 3).Draw(t, "permhi") == 0 {
 			op.PermHi = rapid.SampledFrom(permHi).Draw(t, "permhibits")
+		}
+		if rapid.IntRange(0, 7).Draw(t, "badutf") == 0 {
+			op.Name = harn.B(rapid.SampledFrom([]string{".\xff.", "\xff..", ".\xff.\xff", "..\xff", "\xc0.\xc0."}).Draw(t, "badutfname"))
+			op.Dir = rapid.IntRange(0, 3).Draw(t, "badutfdir") > 0
 		}
 	case "touchroot":
 		op.Count = rapid.IntRange(0, 50).Draw(t, "secs")
@@ -139,6 +144,9 @@ func GenConf(t *rapid.T) ConfCase {
 	for i, op := range ops {
 		c.Ops = append(c.Ops, op)
 		switch {
+		case op.Kind == "create" && strings.ContainsAny(string(op.Name), "\xff\xc0"):
+			// whatever got created (or not) under such a name: use the fid at once
+			c.Ops = append(c.Ops, Op{Kind: "list", Fid: op.Fid}, Op{Kind: "chmod", Fid: op.Fid, Perm: 0700}, Op{Kind: "walk", Fid: op.Fid, Newfid: uint32(rapid.IntRange(1, 6).Draw(t, "bnew")), Names: []harn.B{harn.B("outside.txt")}})
 		case op.Kind == "rename" && rapid.Bool().Draw(t, fmt.Sprintf("follow%d", i)):
 			// right after a rename: climb from the renamed fid, towards something outside
 			w := Op{Kind: "walk", Fid: op.Fid, Newfid: uint32(rapid.IntRange(1, 6).Draw(t, "fnew"))}
@@ -233,6 +241,9 @@ func RunConf(c ConfCase) harn.Result {
 			}
 			inos[e.Ino] = k
 		}
+		if ino, ok := inoOf(w.top); ok {
+			inos[ino] = "the directory that holds the export"
+		}
 		return snap, inos, nil
 	}
 	before, outsideInos, err := outside()
@@ -288,8 +299,8 @@ func RunConf(c ConfCase) harn.Result {
 		if r.err == nil {
 			switch op.Kind {
 			case "walk":
-				if len(r.qids) > 0 {
-					if v := checkQid(op, r.qids[len(r.qids)-1].Path, "the walked-to file"); v != "" {
+				for k, q := range r.qids {
+					if v := checkQid(op, q.Path, fmt.Sprintf("element %d of the walk", k)); v != "" {
 						return fail(v)
 					}
 				}
